@@ -126,8 +126,7 @@ func init() {
 			return nil
 		},
 		"verifSetFile": func(fr *frame, args []value) value {
-			name := fr.i.concreteString(args[0], "verifSetFile name")
-			fr.i.ps.files[name] = args[1]
+			fr.i.vfsSet(args[0], args[1])
 			return nil
 		},
 		"verifFailRead": func(fr *frame, args []value) value {
@@ -139,12 +138,11 @@ func init() {
 			return nil
 		},
 		"verifFile": func(fr *frame, args []value) value {
-			name := fr.i.concreteString(args[0], "verifFile name")
-			c, ok := fr.i.ps.files[name]
-			if !ok {
+			k := fr.i.vfsFind(args[0])
+			if k < 0 {
 				return tuple{"", false}
 			}
-			return tuple{c, true}
+			return tuple{fr.i.ps.vfs[k].data, true}
 		},
 		"verifNumWrites": func(fr *frame, args []value) value {
 			return len(fr.i.ps.writes)
